@@ -72,7 +72,7 @@ func c09Alphabet() []mwOp {
 		{K: "handle", Via: "R", P: "", Ms: []string{"POST"}},
 		{K: "handle", P: "/x/{id}"},
 		{K: "handle", Via: "P2", P: "/any", Route: []string{"M1"}}, // Prefix.Any below a nested prefix
-		{K: "handle", Via: "R", P: ""},                              // Resource.Any
+		{K: "handle", Via: "R", P: ""},                             // Resource.Any
 		{K: "handle", Via: "P1", P: "/y", Ms: []string{"POST", "PUT"}, Route: []string{"M1", "M2", "M3"}},
 		{K: "remove", P: "/x"},
 		{K: "remove", P: "/x", Ms: []string{"GET"}},
@@ -202,9 +202,9 @@ type c09Sys struct {
 	master []types.Middleware[*hv.H]
 	r      *Router
 	log    *hv.Log
-	p1  *mux.Prefix[*hv.H]
-	p2  *mux.Prefix[*hv.H]
-	res *mux.Resource[*hv.H]
+	p1     *mux.Prefix[*hv.H]
+	p2     *mux.Prefix[*hv.H]
+	res    *mux.Resource[*hv.H]
 }
 
 func mws(log *hv.Log, names []string) []types.Middleware[*hv.H] {
